@@ -73,6 +73,8 @@ class FrameSim(Sim):
         st.pending = []
         st.pre_write_arrays = []
         st.nograd_ctx = None
+        # what a re-used operand list holds after a concat/stack call: requires-grad float leaves of the frame
+        ops.LIST_DECOYS = lambda G=st.G: [G.T[i] for i in sorted(G.T) if G.meta[i]["kind"] == "leaf" and G.T[i].requires_grad][:3]
         return st
 
     # ------------------------------------------------------------------ frame oracle
@@ -148,6 +150,9 @@ class FrameSim(Sim):
             ev = {"k": "backward", "root": root, "g": g, "layout": rng.choice(["C", "C", "F", "strided", "offset"])}
             if kn["faulty"] and rng.random() < 0.2:
                 ev["fault"] = {"kind": rng.choice(["alloc", "interrupt", "exit"]), "at": rng.randint(1, 8)}
+                if rng.random() < 0.5:
+                    # crash point at an arbitrary executed line of the sweep
+                    ev["fault"].update(seam="line", at=rng.randint(1, 60 + 110 * len(G.reach(root))))
             return ev
         r = rng.random()
         if r < 0.06:
@@ -226,6 +231,9 @@ class FrameSim(Sim):
         ev = {"k": "op", "op": name, "in": ins, "args": args, "out": list(range(st.next_id, st.next_id + nout)), "repeat": rng.choice([0, 0, 0, 1, 1, 3])}
         if st.knobs["faulty"] and rng.random() < 0.08:
             ev["fault"] = {"kind": rng.choice(["alloc", "interrupt", "exit"]), "at": rng.randint(1, 3)}
+            if rng.random() < 0.5:
+                # crash point at an arbitrary executed line of the forward function (e.g. between a temporary overwrite and its restore)
+                ev["fault"].update(seam="line", at=rng.randint(1, 90))
         return ev
 
     def _gen_bn(self, rng, st):
@@ -262,8 +270,19 @@ class FrameSim(Sim):
         x = rng.choice(xs)
         n, c = G.T[x].data.shape
         nid = st.next_id
-        lab = {"k": "leaf", "id": nid, "data": enc(np.array([rng.randrange(c) for _ in range(n)], dtype=np.int64)), "rg": False, "layout": "C"}
-        st.pending = [{"k": "op", "op": rng.choice(["nll_loss_t", "cross_entropy_t"]), "in": [x, nid], "args": {}, "out": [nid + 1], "repeat": rng.random() < 0.5}]
+        labels = [rng.randrange(c) for _ in range(n)]
+        if rng.random() < 0.3 and n:
+            # unusual labels: padding markers, negative (NumPy-valid) indices, out-of-range classes - a rejected call must leave the targets alone
+            for _ in range(rng.randint(1, min(3, n))):
+                labels[rng.randrange(n)] = rng.choice([-100, -100, -1, c, c + 3, -c])
+        lab = {"k": "leaf", "id": nid, "data": enc(np.array(labels, dtype=np.int64)), "rg": False, "layout": "C"}
+        op = {"k": "op", "op": rng.choice(["nll_loss_t", "cross_entropy_t"]), "in": [x, nid], "args": {}, "out": [nid + 1], "repeat": rng.random() < 0.5}
+        if st.knobs["faulty"] and rng.random() < 0.3:
+            op["fault"] = {"kind": rng.choice(["alloc", "interrupt", "exit"]), "seam": "line", "at": rng.randint(1, 60)}
+        st.pending = [op]
+        if rng.random() < 0.3:
+            # the same targets used by a second loss call afterwards (targets are shared between calls)
+            st.pending.append({"k": "op", "op": rng.choice(["nll_loss_t", "cross_entropy_t"]), "in": [x, nid], "args": {}, "out": [nid + 2], "repeat": 0})
         return lab
 
     # ------------------------------------------------------------------ events
@@ -371,13 +390,13 @@ class FrameSim(Sim):
         self._pre(st, write)
         fault = ev.get("fault")
         if fault:
-            SEAM.arm(fault["kind"], fault["at"])
+            SEAM.arm_spec(fault)
         try:
             with quiet():
                 res = G.apply(ev)
         except SimFault:
             SEAM.disarm()
-            st.faults["forward_" + fault["kind"]] += 1
+            st.faults[f"forward_{fault.get('seam', 'kernel')}_{fault['kind']}"] += 1
             st.probes["forward_fault"] += 1
             self._frame(st, f"{ev['op']} aborted by an injected fault", write)
             return
@@ -551,12 +570,12 @@ class FrameSim(Sim):
         self._pre(st, write)
         fault = ev.get("fault")
         if fault:
-            SEAM.arm(fault["kind"], fault["at"])
+            SEAM.arm_spec(fault)
         try:
             with quiet():
                 t.backward(gt)
         except SimFault:
-            st.faults["sweep_" + fault["kind"]] += 1
+            st.faults[f"sweep_{fault.get('seam', 'kernel')}_{fault['kind']}"] += 1
             st.probes["sweep_fault"] += 1
         except Exception:
             st.notes["backward_raised"] += 1
